@@ -78,7 +78,6 @@ func spec_lookup(act []int, off []int, chk []int, adef []int, gdef []int, nT int
 //@ props C05 C14
 //@ results maxElem
 //@ modifies nothing
-//@ loop 1: order_independent
 
 //@ func (*LALR1).SplitActionAndGotoTable
 //@ props C05
